@@ -38,8 +38,8 @@ ENCODED = ['bob.languages.quote (shlex.quote)', 'bob.languages.BashLanguage.__fo
 STUBS = ['check_quote: the shell is the word-lexer model below (sh quoting rules for the characters quote() can emit)',
          'check_env: EventLoopWrapper without process pool; the real bash executes the scripts']
 ASSUMPTIONS = ['environment values contain no NUL byte (cannot be passed to a process)']
-BOUNDS = ('check_quote: every Unicode string up to the shard length; check_env: 14 hostile values x preserve-environment x white-list '
-          'x 3 observed scripts (build, package, fingerprint)')
+BOUNDS = ('check_quote: every Unicode string up to the shard length; check_env: 17 hostile values + all 400 pairs of 20 special fragments, 16 variables per invocation; x a recipe declaring PATH / '
+          'LD_LIBRARY_PATH itself; first batch also x preserve-environment x white-list; 3 observed scripts (build, package, fingerprint)')
 
 SAFE = 'abcdefghijklmnopqrstuvwxyzABCDEFGHIJKLMNOPQRSTUVWXYZ0123456789_@%+=:,./-'
 
@@ -89,8 +89,12 @@ def check_quote(v: str) -> bool:
 
 
 # ------------------------------------------------------------- end to end ----
-VALUES = ['plain', 'a b', '$HOME', '$(echo pwned)', '`echo pwned`', "it's", 'say "hi"', 'back\\slash', 'line1\nline2', 'tab\there',
-          '  lead and trail  ', '*', 'ümlaut ✓', "';echo pwned;'", '${V}', '-n', '']
+SINGLES = ['plain', 'a b', '$HOME', '$(echo pwned)', '`echo pwned`', "it's", 'say "hi"', 'back\\slash', 'line1\nline2', 'tab\there',
+           '  lead and trail  ', '*', 'ümlaut ✓', "';echo pwned;'", '${V0}', '-n', '']
+FRAGMENTS = [' ', '$x', '`', "'", '"', '\\', '\n', '\t', '\\n', '\\t', '\\101', '*', 'ü', ';', '#', '!', '~', '{a,b}', '\r', '$\'']
+VALUES = SINGLES + [a + 'x' + b for a in FRAGMENTS for b in FRAGMENTS]
+BATCH = 16
+NB = (len(VALUES) + BATCH - 1) // BATCH
 
 
 class ELW:
@@ -161,18 +165,20 @@ def scratch():
 
 
 DUMP = '''compgen -e > "%(out)s/%(step)s-names.txt"
-for n in V W2 U FP HVAR_WL HVAR_NO ; do
+for n in %(vars)s W2 U FP HVAR_WL HVAR_NO PATH LD_LIBRARY_PATH ; do
   if [[ -v $n ]] ; then printf '%%s' "${!n}" > "%(out)s/%(step)s-$n.txt" ; fi
 done
+type -P mytool > "%(out)s/%(step)s-mytool.txt" || true
 '''
 
 
-def scenario(vi, preserve, wl):
+def scenario(batch, preserve, wl, declpath):
     import yaml
     install()
     cwd = os.getcwd()
-    val = VALUES[vi]
-    esc = ''.join('\\' + c for c in val)       # literal in Bob's own substitution language (C17: escape is the identity)
+    vals = VALUES[batch * BATCH:(batch + 1) * BATCH]
+    names = ['V%d' % i for i in range(len(vals))]
+    esc = lambda v: ''.join('\\' + c for c in v)       # literal in Bob's own substitution language (C17: escape is the identity)
     try:
         base = os.path.join(scratch(), 'w')
         shutil.rmtree(base, ignore_errors=True)
@@ -184,15 +190,26 @@ def scenario(vi, preserve, wl):
             f.write('bobMinimumVersion: "0.25"\n')
         with open(os.path.join(proj, 'default.yaml'), 'w') as f:
             yaml.safe_dump({'whitelist': ['HVAR_WL', 'PATH'] if wl else ['PATH']}, f)
+        env = {n: esc(v) for n, v in zip(names, vals)}
+        env.update({'W2': 'two', 'U': 'undeclared', 'FP': esc(vals[0])})
+        bvars = names + ['FP']
+        if declpath:
+            env.update({'PATH': '/declared/bin', 'LD_LIBRARY_PATH': '/declared/lib'})
+            bvars += ['PATH', 'LD_LIBRARY_PATH']
+        d = {'out': out, 'vars': ' '.join(names)}
         recipe = {'root': True,
-                  'environment': {'V': esc, 'W2': 'two', 'U': 'undeclared', 'FP': esc},
-                  'buildVars': ['V', 'FP'], 'packageVars': ['W2'],
+                  'depends': [{'name': 'tool', 'use': ['tools']}],
+                  'environment': env,
+                  'buildVars': bvars, 'packageVars': ['W2'], 'buildTools': ['mytool'], 'packageTools': ['mytool'],
                   'fingerprintIf': True, 'fingerprintVars': ['FP'],
-                  'fingerprintScript': DUMP % {'out': out, 'step': 'fp'} + 'echo fingerprint\n',
-                  'buildScript': DUMP % {'out': out, 'step': 'build'},
-                  'packageScript': DUMP % {'out': out, 'step': 'package'}}
+                  'fingerprintScript': DUMP % dict(d, step='fp') + 'echo fingerprint\n',
+                  'buildScript': DUMP % dict(d, step='build'),
+                  'packageScript': DUMP % dict(d, step='package')}
         with open(os.path.join(proj, 'recipes', 'root.yaml'), 'w') as f:
             yaml.safe_dump(recipe, f, allow_unicode=True)
+        with open(os.path.join(proj, 'recipes', 'tool.yaml'), 'w') as f:
+            yaml.safe_dump({'packageScript': 'mkdir -p bin lib\nprintf "#!/bin/sh\\necho tool\\n" > bin/mytool\nchmod +x bin/mytool\n',
+                            'provideTools': {'mytool': {'path': 'bin', 'libs': ['lib']}}}, f)
         os.environ['HOME'] = base          # (Debian's bash sources ~/.bashrc when stdin is a socket, as it is for fingerprint scripts)
         os.environ['HVAR_WL'] = 'host white'
         os.environ['HVAR_NO'] = 'host other'
@@ -218,16 +235,24 @@ def scenario(vi, preserve, wl):
             if not os.path.exists(os.path.join(out, step + '-names.txt')):
                 raise V.HarnessGap(step + ' script did not run: ' + buf.buffer.getvalue().decode('utf8', 'replace')[-300:])
         # declared values, byte for byte
-        if seen('build', 'V') != val:
-            return False, 'build-sees-wrong-value'
-        if seen('package', 'V') != val:              # declared for an earlier step of the same package
-            return False, 'package-sees-wrong-value'
+        for n, v in zip(names, vals):
+            if seen('build', n) != v:
+                return False, 'build-sees-wrong-value'
+            if seen('package', n) != v:              # declared for an earlier step of the same package
+                return False, 'package-sees-wrong-value'
         if seen('package', 'W2') != 'two':
             return False, 'package-misses-its-variable'
-        if seen('fp', 'FP') != val:
+        if seen('fp', 'FP') != vals[0]:
             return False, 'fingerprint-sees-wrong-value'
+        # consumed tools are found first on PATH / LD_LIBRARY_PATH, whatever the recipe declares under these names
+        tooldir = os.path.join(proj, 'dev', 'dist', 'tool', '1', 'workspace')
+        for step in ('build', 'package'):
+            if (seen(step, 'mytool') or '').strip() != os.path.join(tooldir, 'bin', 'mytool'):
+                return False, step + '-tool-not-on-PATH'
+            if os.path.join(tooldir, 'lib') not in (seen(step, 'LD_LIBRARY_PATH') or '').split(':'):
+                return False, step + '-tool-library-path'
         # nothing else
-        for name in ('V', 'W2'):
+        for name in names[:1] + ['W2']:
             if seen('fp', name) is not None:
                 return False, 'fingerprint-sees-step-variable'
         if seen('build', 'W2') is not None:
@@ -250,16 +275,17 @@ def scenario(vi, preserve, wl):
         os.chdir(cwd)
 
 
-def check_env(vi: int, preserve: bool, wl: bool) -> bool:
+def check_env(batch: int, preserve: bool, wl: bool, declpath: bool) -> bool:
     """
-    pre: 0 <= vi < len(VALUES)
+    pre: 0 <= batch < NB
+    pre: batch == 0 or (not preserve and wl)
     post: _
     """
     V.enter()
-    i = V.concretize(vi, len(VALUES))
-    p, w = bool(preserve), bool(wl)
+    i = V.concretize(batch, NB)
+    p, w, d = bool(preserve), bool(wl), bool(declpath)
     with V.fast():
-        ok, fact = scenario(i, p, w)
+        ok, fact = scenario(i, p, w, d)
     return V.verdict(ok, fact)
 
 
